@@ -106,6 +106,15 @@ INVARIANTS EncoderInv RoundTrip ProbInv FirstByteZero
 CHECK_DEADLOCK FALSE
 """
 
+SMALL_CFG = """SPECIFICATION %s
+CONSTANTS
+  MaxCs = %d
+  MaxN = %d
+%s
+INVARIANTS %s
+CHECK_DEADLOCK FALSE
+"""
+
 REACH_CFG = """SPECIFICATION %s
 CONSTANTS
   Alphabet %s
@@ -666,6 +675,17 @@ def spec_level(ctx, errors):
             m = re.search(r'"MC-COVERAGE", (\[.*?\])', res["out"])
             if extreme and m:
                 rc_info["mc_first_decision_coverage"] = {k: int(v) for k, v in re.findall(r"(\w+) \|-> (\d+)", m.group(1))}
+        # The same algorithm scaled down (2-bit digits): every reachable state.
+        res = ctx.tlc_ok("RangeCoderSmall", cfg="small.cfg", data={"small.cfg": SMALL_CFG % ("RtSpec", 5, 7 if thorough else 5, "", "EncInvSmall RoundTripSmall")},
+                         workers=4 if thorough else 2, timeout=3000, heap="3g",
+                         label="RangeCoderSmall round trip (all sequences of <= %d decisions)" % (7 if thorough else 5))
+        if thorough:
+            ctx.tlc_ok("RangeCoderSmall", cfg="small.cfg", data={"small.cfg": SMALL_CFG % ("InvSpec", 5, 0, "CONSTRAINT CsBound", "EncInvSmall")},
+                       workers=4, timeout=3000, heap="3g", label="RangeCoderSmall: encoder invariant on every reachable state (<= 5 pending digits)")
+            res = ctx.tlc("RangeCoderSmall", cfg="small.cfg", data={"small.cfg": SMALL_CFG % ("InvSpec", 5, 0, "CONSTRAINT CsBound", "NoLongRun")},
+                          workers=2, timeout=3000, heap="3g", label="RangeCoderSmall: a run of 4 pending digits is reachable (expected violation)")
+            if res["violated"] != "NoLongRun":
+                raise ToolingError("RangeCoderSmall never builds a pending run of MaxCs digits: the exploration would be vacuous\n" + res["out"][-1500:])
     except Exception as e:  # noqa
         errors.append(e)
 
@@ -673,6 +693,14 @@ def spec_level(ctx, errors):
 def run(ctx):
     # The machine is shared: keep every JVM's helper threads few.
     ctx.env.setdefault("JAVA_TOOL_OPTIONS", "-XX:ParallelGCThreads=2 -XX:CICompilerCount=2")
+    # ... and never more than six TLC processes at a time (several sides of this check run concurrently).
+    jvms = threading.Semaphore(6)
+    tlc0 = ctx.tlc
+
+    def tlc_limited(*a, **kw):
+        with jvms:
+            return tlc0(*a, **kw)
+    ctx.tlc = tlc_limited
     errors = []
     th = threading.Thread(target=spec_level, args=(ctx, errors))
     th.start()
@@ -782,7 +810,7 @@ def run(ctx):
             f["raw_last_chunk" if t["raw_chunks"] else "lzma_last_chunk"] += 1
     for f in flips.values():
         f["n"] = "%d..%d" % (min(f["n"]), max(f["n"]))
-    mc = [s for s in ctx.tlc_stats if s["label"].startswith("RangeCoderMC")]
+    mc = [s for s in ctx.tlc_stats if s["label"].startswith(("RangeCoderMC", "RangeCoderSmall"))]
     samples.append({"row_decoded_by_tlc": "payload 02 be as .lzma: the flush starts with low = 2^32 exactly", "rare_payloads": rare["reached"]})
     ctx.evidence("exploration", {
         "evaluations": len(tr) + (nrows or 0) + rows_out["rows"],
